@@ -11,6 +11,7 @@ import (
 	"go/ast"
 	"go/token"
 	"reflect"
+	"regexp"
 	"sort"
 	"strconv"
 	"strings"
@@ -271,23 +272,194 @@ func condKernelSrc(rel, fn, marker, leanName string) func() string {
 	}
 }
 
+const ser, ll = "serialization.go", "trillian/util/log_leaf.go"
+
+// canonical statements and return expressions of fn (and of what it inlines), each with the conjuncts under which it is reached
+type semItem struct {
+	src string
+	pc  []ast.Expr
+}
+
+func semItems(rel, fn string) []semItem {
+	v := canonOf(rel, fn)
+	var items []semItem
+	for i, st := range v.stmts {
+		var pc []ast.Expr
+		if i < len(v.stmtPc) {
+			pc = v.stmtPc[i]
+		}
+		items = append(items, semItem{st.src, pc})
+	}
+	for _, rs := range [][]canonReturn{v.returns, v.innerReturns} {
+		for _, r := range rs {
+			for _, res := range r.results {
+				items = append(items, semItem{norm(res), r.pc})
+			}
+		}
+	}
+	return items
+}
+
+// semFacts: the first capture group of every canonical statement / returned expression of fn matching pattern, in order
+// (duplicates from a statement that is also a return are dropped).
+func semFacts(rel, fn, pattern, leanName string) func() string {
+	return func() string {
+		re := regexp.MustCompile(pattern)
+		var got []string
+		for _, it := range semItems(rel, fn) {
+			if m := re.FindStringSubmatch(it.src); m != nil {
+				got = append(got, m[len(m)-1])
+			}
+		}
+		return fmt.Sprintf("/-- generated from %s func %s (canonical view): `%s` -/\ndef %s : List String := %s\n", rel, fn, pattern, leanName, leanStrList(got))
+	}
+}
+
+// semLitFields: (field, canonical value) of the unique composite literal of type typ in fn's canonical view, sorted by field.
+func semLitFields(rel, fn, typ, leanName string) func() string {
+	return func() string {
+		v := canonOf(rel, fn)
+		var lits []*ast.CompositeLit
+		for _, cl := range v.lits {
+			if src(cl.Type) == typ {
+				lits = append(lits, cl)
+			}
+		}
+		if len(lits) != 1 {
+			panic(bail{fmt.Sprintf("%s: expected exactly one %s literal in %s (and what it inlines), found %d", rel, typ, fn, len(lits))})
+		}
+		var rows []string
+		for _, e := range lits[0].Elts {
+			kv, ok := e.(*ast.KeyValueExpr)
+			if !ok {
+				panic(bail{fmt.Sprintf("%s: positional field in %s literal", rel, typ)})
+			}
+			val := norm(src(kv.Value))
+			if cl, ok := kv.Value.(*ast.CompositeLit); ok && cl.Type != nil { // a nested literal is pinned by its own unit
+				val = src(cl.Type) + "{…}"
+			}
+			if u, ok := kv.Value.(*ast.UnaryExpr); ok {
+				if cl, ok := u.X.(*ast.CompositeLit); ok && cl.Type != nil {
+					val = "&" + src(cl.Type) + "{…}"
+				}
+			}
+			rows = append(rows, fmt.Sprintf("(%q, %q)", src(kv.Key), val))
+		}
+		sortStrings(rows)
+		return fmt.Sprintf("/-- generated from %s func %s (canonical view): the fields of the %s literal and where each comes from -/\ndef %s : List (String × String) :=\n  [%s]\n",
+			rel, fn, typ, leanName, strings.Join(rows, ", "))
+	}
+}
+
+// normCond: `!(a != b)` → `a==b`, `!(a == b)` → `a!=b`, `!(!(c))` → `c`, redundant parentheses dropped (space-free text).
+func normCond(c string) string {
+	c = norm(c)
+	for {
+		switch {
+		case strings.HasPrefix(c, "(") && strings.HasSuffix(c, ")") && balanced(c[1:len(c)-1]):
+			c = c[1 : len(c)-1]
+		case strings.HasPrefix(c, "!(") && strings.HasSuffix(c, ")") && balanced(c[2:len(c)-1]):
+			in := c[2 : len(c)-1]
+			for strings.HasPrefix(in, "(") && strings.HasSuffix(in, ")") && balanced(in[1:len(in)-1]) {
+				in = in[1 : len(in)-1]
+			}
+			switch {
+			case strings.HasPrefix(in, "!(") && strings.HasSuffix(in, ")") && balanced(in[2:len(in)-1]):
+				c = in[2 : len(in)-1]
+			case strings.HasPrefix(in, "!") && !strings.ContainsAny(in, "&|"):
+				c = in[1:]
+			case strings.Count(in, "!=") == 1 && !strings.ContainsAny(in, "&|<>"):
+				c = strings.Replace(in, "!=", "==", 1)
+				return c
+			case strings.Count(in, "==") == 1 && !strings.ContainsAny(in, "&|<>"):
+				c = strings.Replace(in, "==", "!=", 1)
+				return c
+			default:
+				if !strings.ContainsAny(in, "&|=<>! ") {
+					return "!" + in
+				}
+				return "!(" + in + ")"
+			}
+		default:
+			return c
+		}
+	}
+}
+
+func balanced(s string) bool {
+	d := 0
+	for _, r := range s {
+		if r == '(' {
+			d++
+		} else if r == ')' {
+			d--
+			if d < 0 {
+				return false
+			}
+		}
+	}
+	return d == 0
+}
+
+// semWhen: the (normalised) branch conditions mentioning `about` under which the canonical statement / returned expression matching
+// pattern is reached; every match must be reached under the same conditions.
+func semWhen(rel, fn, pattern, about, leanName string) func() string {
+	return func() string {
+		re := regexp.MustCompile(pattern)
+		var all []string
+		n := 0
+		for _, it := range semItems(rel, fn) {
+			if !re.MatchString(it.src) {
+				continue
+			}
+			n++
+			var cs []string
+			for _, c := range it.pc {
+				if t := normCond(src(c)); strings.Contains(t, norm(about)) {
+					cs = append(cs, t)
+				}
+			}
+			key := strings.Join(cs, " && ")
+			dup := false
+			for _, a := range all {
+				dup = dup || a == key
+			}
+			if !dup {
+				all = append(all, key)
+			}
+		}
+		if n == 0 {
+			panic(bail{fmt.Sprintf("%s: nothing in the canonical view of %s matches `%s`", rel, fn, pattern)})
+		}
+		return fmt.Sprintf("/-- generated from %s func %s (canonical view): the conditions on `%s` under which `%s` is reached -/\ndef %s : List String := %s\n",
+			rel, fn, about, pattern, leanName, leanStrList(all))
+	}
+}
+
 func init() {
 	register(genFile{name: "CtTypes", imports: []string{"CTV.Tls.Tag"}, units: []unit{
 		{"ct wire types", ctTypesUnit},
 		{"ct api json", ctJSONUnit},
-		// how the serialization.go wrappers are wired: which struct literal is marshalled, what is prepended, what is parsed
-		{"SerializeSCTSignatureInput.input", assignsTo("serialization.go", "SerializeSCTSignatureInput", "input", "sctInputAssign")},
-		{"SerializeSCTSignatureInput.x509", assignsTo("serialization.go", "SerializeSCTSignatureInput", "input.X509Entry", "sctInputX509Assign")},
-		{"SerializeSCTSignatureInput.precert", assignsTo("serialization.go", "SerializeSCTSignatureInput", "input.PrecertEntry", "sctInputPrecertAssign")},
-		{"SerializeSCTSignatureInput.marshal", callsOf("serialization.go", "SerializeSCTSignatureInput", "tls.Marshal", "sctInputMarshal")},
-		{"SerializeSTHSignatureInput.input", assignsTo("serialization.go", "SerializeSTHSignatureInput", "input", "sthInputAssign")},
-		{"SerializeSTHSignatureInput.marshal", callsOf("serialization.go", "SerializeSTHSignatureInput", "tls.Marshal", "sthInputMarshal")},
-		{"LeafHashForLeaf.marshal", callsOf("serialization.go", "LeafHashForLeaf", "tls.Marshal", "leafHashMarshal")},
-		{"LeafHashForLeaf.data", assignsTo("serialization.go", "LeafHashForLeaf", "data", "leafHashData")},
-		{"LeafHashForLeaf.hash", callsOf("serialization.go", "LeafHashForLeaf", "sha256.Sum256", "leafHashSum")},
-		{"RawLogEntryFromLeaf.unmarshal", callsOf("serialization.go", "RawLogEntryFromLeaf", "tls.Unmarshal", "rawLogEntryUnmarshal")},
-		{"ExtraDataForChain.extra", assignsTo("trillian/util/log_leaf.go", "ExtraDataForChain", "extra", "extraDataAssign")},
-		{"buildLogLeaf.choice", condKernelSrc("trillian/util/log_leaf.go", "buildLogLeaf", "ExtraDataForChain(", "buildLogLeafChoice")},
+		// how the serialization.go / log_leaf.go wrappers are wired, on the canonical view of each function (extract/canon.go:
+		// parameters by type, hoisted reads substituted back, same-file helpers and local closures inlined, branch conditions
+		// normalised), so that renames, hoists, extracted helpers and if/switch/early-return restructurings leave them unchanged
+		{"SerializeSCTSignatureInput.fields", semLitFields(ser, "SerializeSCTSignatureInput", "CertificateTimestamp", "sctInputFields")},
+		{"SerializeSCTSignatureInput.precert", semLitFields(ser, "SerializeSCTSignatureInput", "PreCert", "sctInputPreFields")},
+		{"SerializeSCTSignatureInput.x509", semFacts(ser, "SerializeSCTSignatureInput", `^\w+\.X509Entry=(.*)$`, "sctInputX509")},
+		{"SerializeSCTSignatureInput.pre", semFacts(ser, "SerializeSCTSignatureInput", `^\w+\.PrecertEntry=&(\w+)\{`, "sctInputPreTarget")},
+		{"SerializeSCTSignatureInput.marshal", semFacts(ser, "SerializeSCTSignatureInput", `tls\.Marshal\(\$var\((\w+)\{`, "sctInputMarshalled")},
+		{"SerializeSTHSignatureInput.fields", semLitFields(ser, "SerializeSTHSignatureInput", "TreeHeadSignature", "sthInputFields")},
+		{"SerializeSTHSignatureInput.marshal", semFacts(ser, "SerializeSTHSignatureInput", `tls\.Marshal\(\$var\((\w+)\{`, "sthInputMarshalled")},
+		{"LeafHashForLeaf.marshal", semFacts(ser, "LeafHashForLeaf", `:=tls\.Marshal\((.*)\)$`, "leafHashMarshal")},
+		{"LeafHashForLeaf.data", semFacts(ser, "LeafHashForLeaf", `append\(\[\]byte\{(\w+)\},\$Marshal\.\.\.\)`, "leafHashPrefix")},
+		{"LeafHashForLeaf.hash", semFacts(ser, "LeafHashForLeaf", `sha256\.Sum256\((.*)\)$`, "leafHashSum")},
+		{"RawLogEntryFromLeaf.unmarshal", semFacts(ser, "RawLogEntryFromLeaf", `tls\.Unmarshal\((.*)\)$`, "rawLogEntryUnmarshal")},
+		{"ExtraDataForChain.precert", semLitFields(ll, "ExtraDataForChain", "ct.PrecertChainEntry", "extraDataPrecertFields")},
+		{"ExtraDataForChain.chain", semLitFields(ll, "ExtraDataForChain", "ct.CertificateChain", "extraDataChainFields")},
+		{"ExtraDataForChain.precertWhen", semWhen(ll, "ExtraDataForChain", `ct\.PrecertChainEntry\{`, "$bool", "extraDataPrecertWhen")},
+		{"ExtraDataForChain.chainWhen", semWhen(ll, "ExtraDataForChain", `ct\.CertificateChain\{`, "$bool", "extraDataChainWhen")},
+		{"buildLogLeaf.chainWhen", semWhen(ll, "buildLogLeaf", `ct\.(PrecertChainEntry|CertificateChain)\{`, "$[]byte", "buildLogLeafChainWhen")},
+		{"buildLogLeaf.hashWhen", semWhen(ll, "buildLogLeaf", `ct\.(PrecertChainEntryHash|CertificateChainHash)\{`, "$[]byte", "buildLogLeafHashWhen")},
 		{"TreeLeafPrefix", ctConst("types.go", "TreeLeafPrefix", "treeLeafPrefix")},
 		{"TreeNodePrefix", ctConst("types.go", "TreeNodePrefix", "treeNodePrefix")},
 		{"X509LogEntryType", ctConst("types.go", "X509LogEntryType", "x509LogEntryType")},
